@@ -494,6 +494,20 @@ func propC18(h *H) {
 		h.Outcome("hash-colliding-pair-in-alphabet")
 	}
 	maxLen := envInt("VERIF_HISTLEN", 4)
+	// keep the number of histories of one signature below ~400 000: a larger alphabet
+	// (several signed-zero and colliding pairs) is explored to a smaller depth
+	for total, l := 0, 1; l <= maxLen; l++ {
+		pow := 1
+		for i := 0; i < l; i++ {
+			pow *= ntAll
+		}
+		total += pow
+		if total > 400000 {
+			maxLen = l - 1
+			h.Outcome(fmt.Sprintf("history-depth-reduced-to-%d", maxLen))
+			break
+		}
+	}
 	seqs := allLists(ntAll, maxLen)
 	fresult := func(c string) []reflect.Value {
 		out := make([]reflect.Value, nout)
